@@ -4,12 +4,13 @@ import common as C
 import gen as G
 import codec
 
-MODEL_TARGETS = ["model/Ser.vo", "model/De.vo", "spec/Denote.vo", "spec/Encoding.vo"]
+MODEL_TARGETS = ["model/Ser.vo", "model/De.vo", "spec/Denote.vo", "spec/DenoteOpt.vo", "spec/Encoding.vo"]
 COQ_TARGETS = ["props/C01.vo", "proofs/SerDispatchTie.vo", "proofs/DeDispatchTie.vo"]
 THEOREMS = [("C01", ["C01_any", "C01_any_default", "C01_node", "C01_encoding_injective", "C01_encoding_prefix_free", "C01_typed"]),
             ("SerDispatchTie", ["tie_ser_bool", "tie_ser_integer", "tie_ser_f32", "tie_ser_f64", "tie_ser_str", "tie_ser_bytes", "tie_ser_unit", "tie_ser_unit_struct", "tie_ser_unit_variant", "tie_ser_seq", "tie_ser_map", "tie_ser_forward_names", "tie_ser_simple_forwards", "ser_int_leaf_is_rows", "ser_str_leaf_is_rows", "ser_bytes_leaf_is_rows"])]
 PROOF_FILES = ["proofs/RoundTripProofs.v", "proofs/SerProofs.v", "proofs/DeProofs.v", "proofs/VarintProofs.v", "props/C01.v", "proofs/RoundTripTyped.v", "proofs/DS1.v", "proofs/DS2.v", "proofs/DS3.v", "proofs/DS4.v", "proofs/DS5.v", "proofs/DS6.v", "proofs/DS7.v", "proofs/SerDispatchTie.v"]
 TRUSTED_BASE = [
+    'spec/DenoteOpt.v (definitions only, no theorems): the second family of ordinary Rust types -- Option<enum of the non-null branches> for every union that is not [null,T] -- and the callbacks it must receive; used as expectation for the `typed-opt` decodes (the model De.v is compared on the same lines)',
     "dispatch tie: translators/gen_ser_dispatch.py (+ rustmatch.py) reads the arms of the serialize_* methods of DatumSerializer into gen/GenSerDispatch.v; proofs/SerDispatchTie.v ties them to the rows of model/Ser.v (leaf functions proved to be the interpretation of the rows on non-union nodes; 2 arms unclassified: the Decimal arm of serialize_integer and the Union arm of serialize_unit_variant)",
     "Coq 8.16.1 kernel; no axioms (Print Assumptions: closed)",
     "spec/{AvroValue,Encoding,Denote,Wf}.v written from the Avro specification: values, conformance, the encoding, the canonical presentation `present` (union branches by reported name), the expected callback traces dval_any / dval_typed",
@@ -47,6 +48,17 @@ def run(ctx):
     n_dir = 260 if quick else 6000
     for _ in range(n_dir):
         nodes = D.name_clash_case(rng)
+        for _ in range(2):
+            v = G.ValueGen(rng, nodes, layouts=False).gen(0)
+            if v is not None:
+                pairs.append((nodes, v))
+    # unions that are not [null,T] (two non-null branches: every ordered pair of leaf kinds; one branch; three branches with
+    # or without null), which a Rust type may still hold as Option<enum of the branches> (second typed target below)
+    n_leaf = len([1 for lab, _ in G.leaf_kind_schemas() if not lab.startswith("unknown-logical")])
+    upairs = [(i, j) for i in range(n_leaf) for j in range(n_leaf) if i != j]
+    rng.shuffle(upairs)
+    for pr_ in upairs[:(260 if quick else len(upairs))] + [None] * (140 if quick else 6000):
+        nodes = D.plain_union_case(rng, pr_)
         for _ in range(2):
             v = G.ValueGen(rng, nodes, layouts=False).gen(0)
             if v is not None:
@@ -97,7 +109,11 @@ def run(ctx):
         enc = p[1]
         dist["ser-ok"] += 1
         modes = ["slice", "(chunks %d)" % rng.choice([1, 2, 3, 7, 64])]
-        for tg, target, exp in (("any", "any", s["dany"]), ("typed", s["ttarget"], s["dtyped"])):
+        tgs = [("any", "any", s["dany"]), ("typed", s["ttarget"], s["dtyped"])]
+        if s["otarget"] != s["ttarget"]:
+            # the Rust side keeps the position optional although the union is not [null,T]: Option<enum of the branches>
+            tgs.append(("typed-opt", s["otarget"], s["dopt"]))
+        for tg, target, exp in tgs:
             for mode in modes:
                 de_lines.append("de %s %s %s %s" % (s["schema"], target, enc, mode))
                 de_meta.append((tg + "/" + mode.split(" ")[0].strip("("), "(ok %s 0)" % exp, enc, mode == "slice"))
